@@ -202,5 +202,27 @@ namespace rkcommon {
       return a.ptr != b.ptr;
     }
 
+    // Handles to different but related types (IntrusivePtr<Base> and
+    // IntrusivePtr<Derived>): without these overloads both sides converted to
+    // bool, so any two non-null handles compared equal
+
+    template <typename T, typename U>
+    inline bool operator<(const IntrusivePtr<T> &a, const IntrusivePtr<U> &b)
+    {
+      return a.ptr < b.ptr;
+    }
+
+    template <typename T, typename U>
+    bool operator==(const IntrusivePtr<T> &a, const IntrusivePtr<U> &b)
+    {
+      return a.ptr == b.ptr;
+    }
+
+    template <typename T, typename U>
+    bool operator!=(const IntrusivePtr<T> &a, const IntrusivePtr<U> &b)
+    {
+      return a.ptr != b.ptr;
+    }
+
   }  // namespace memory
 }  // namespace rkcommon
